@@ -181,6 +181,24 @@ pub enum CosmosMsg<T> {
     Gov(GovMsg),
 }
 pub struct SubMsg<T> { pub id: u64, pub payload: Binary, pub msg: CosmosMsg<T>, pub gas_limit: Option<u64>, pub reply_on: ReplyOn }
+// SubMsg constructors (cosmwasm-std 2.2.2 results/submessages.rs; ASSUMED).  `impl Into<CosmosMsg<T>>` / `impl Into<Binary>`
+// are taken at the identity instance (the only one the repository uses them at).
+impl<T> SubMsg<T> {
+    pub fn new(msg: CosmosMsg<T>) -> (r: Self) ensures r == (SubMsg { id: 0u64, payload: r.payload, msg, gas_limit: None::<u64>, reply_on: ReplyOn::Never }), r.payload.b@.len() == 0
+    { SubMsg::reply_never(msg) }
+    pub fn reply_never(msg: CosmosMsg<T>) -> (r: Self) ensures r == (SubMsg { id: 0u64, payload: r.payload, msg, gas_limit: None::<u64>, reply_on: ReplyOn::Never }), r.payload.b@.len() == 0
+    { SubMsg { id: 0, payload: Binary::default(), msg, gas_limit: None, reply_on: ReplyOn::Never } }
+    pub fn reply_on_success(msg: CosmosMsg<T>, id: u64) -> (r: Self) ensures r == (SubMsg { id, payload: r.payload, msg, gas_limit: None::<u64>, reply_on: ReplyOn::Success }), r.payload.b@.len() == 0
+    { SubMsg { id, payload: Binary::default(), msg, gas_limit: None, reply_on: ReplyOn::Success } }
+    pub fn reply_on_error(msg: CosmosMsg<T>, id: u64) -> (r: Self) ensures r == (SubMsg { id, payload: r.payload, msg, gas_limit: None::<u64>, reply_on: ReplyOn::Error }), r.payload.b@.len() == 0
+    { SubMsg { id, payload: Binary::default(), msg, gas_limit: None, reply_on: ReplyOn::Error } }
+    pub fn reply_always(msg: CosmosMsg<T>, id: u64) -> (r: Self) ensures r == (SubMsg { id, payload: r.payload, msg, gas_limit: None::<u64>, reply_on: ReplyOn::Always }), r.payload.b@.len() == 0
+    { SubMsg { id, payload: Binary::default(), msg, gas_limit: None, reply_on: ReplyOn::Always } }
+    pub fn with_gas_limit(self, limit: u64) -> (r: Self) ensures r == (SubMsg { gas_limit: Some(limit), ..self })
+    { let mut s = self; s.gas_limit = Some(limit); s }
+    pub fn with_payload(self, payload: Binary) -> (r: Self) ensures r == (SubMsg { payload, ..self })
+    { let mut s = self; s.payload = payload; s }
+}
 pub struct MsgResponse { pub type_url: String, pub value: Binary }
 pub struct SubMsgResponse { pub events: Vec<Event>, pub data: Option<Binary>, pub msg_responses: Vec<MsgResponse> }
 pub enum SubMsgResult { Ok(SubMsgResponse), Err(String) }
@@ -253,6 +271,9 @@ impl<'a, C> QuerierWrapper<'a, C> {
     pub uninterp spec fn snap(&self) -> (St, BlockInfo);
     #[verifier::external_body]
     pub fn new(q: &'a dyn Querier) -> (r: Self) ensures r.snap() == q.snap() { QuerierWrapper { q, p: core::marker::PhantomData } }
+    // Deref<Target = dyn Querier> (cosmwasm-std traits.rs): the wrapped querier
+    #[verifier::external_body]
+    pub fn deref(&self) -> (r: &'a dyn Querier) ensures r.snap() == self.snap() { self.q }
 }
 
 // ---- the repo's response type (src/executor.rs); plain data, mirrored so every group sees the same type
